@@ -47,7 +47,7 @@ def describe(case, obs):
 
 
 def generate(rng, tier):
-    n = 450 if tier == "quick" else 6000
+    n = 700 if tier == "quick" else 6000
     cases = []
     k = 0
     while len(cases) < n:
